@@ -66,6 +66,7 @@ WORLD = {
         ("alt", dict(N=8, nv=[1, 2])),
         ("lift", dict(N=8, nv=[1, 2], k=2, windows="chrom", forms=["bare"])),
         ("lift", dict(N=6, nv=[1, 2], k=2, windows="chrom", forms=["chrom", "seqless"])),
+        ("lift", dict(N=8, nv=[1], k=4, windows="chrom", forms=["bare"])),  # three and four blocks: one deletion may swallow several
         ("lift", dict(N=6, nv=[1], k=2, windows="chunks", forms=["bare", "chunk"])),
         ("lift", dict(N=5, nv=[2], k=2, windows="chunks", forms=["bare", "chunk"])),
         ("iv", dict(N=5, nv=[1], k=2, windows="menu")),
